@@ -393,3 +393,159 @@ func init() {
 		c.Check(len(recvs) >= 2, "both-sides", f.Pos(), "finalized() is evaluated for u and for w", "BetterThan no longer evaluates finalized() for both scores: an update with the finalized-header flag but too few signers is not outranked by the minimum score")
 	})
 }
+
+func init() {
+	extendProp("C49", "A batch reply is written while the buffer lock is held: batchCallBuffer.doWrite (which calls writeJSONBatch) never releases b.mutex, and every caller takes the lock before and releases it only on return — so the call-processing goroutine cannot finish the request while the timeout goroutine is still writing the reply.", nil, func(c *Ctx) {
+		c.Rule("LOCK/C49.writeunderlock")
+		rp := "rpc"
+		dw := c.Fn(rp, "(*batchCallBuffer).doWrite")
+		if dw == nil {
+			return
+		}
+		c.Funcs[dw] = true
+		onMutex := func(in ssa.Instruction, name string) bool {
+			var cc *ssa.CallCommon
+			switch x := in.(type) {
+			case *ssa.Call:
+				cc = &x.Call
+			case *ssa.Defer:
+				cc = &x.Call
+			default:
+				return false
+			}
+			cal := cc.StaticCallee()
+			if cal == nil || cal.Name() != name || len(cc.Args) == 0 {
+				return false
+			}
+			fa, ok := cc.Args[0].(*ssa.FieldAddr)
+			return ok && fieldAddrName(fa) == rp+".batchCallBuffer.mutex"
+		}
+		released := false
+		for _, f := range append([]*ssa.Function{dw}, allClosures(dw)...) {
+			eachInstr(f, func(in ssa.Instruction) {
+				if onMutex(in, "Unlock") {
+					released = true
+				}
+			})
+		}
+		c.Check(!released, "held-across-write", dw.Pos(), "doWrite does not unlock b.mutex", "doWrite releases the buffer lock around the connection write: the other goroutine sees `wrote` set and lets the request finish before the reply is out")
+		n := 0
+		for _, f := range c.AllFuncs(rp) {
+			for _, s := range c.Calls(f, "(*"+rp+".batchCallBuffer).doWrite") {
+				n++
+				c.Funcs[f] = true
+				locked, early := false, false
+				eachInstr(f, func(in ssa.Instruction) {
+					if _, isDefer := in.(*ssa.Defer); isDefer {
+						return
+					}
+					if onMutex(in, "Lock") && instrDominates(in, s.Instr) {
+						locked = true
+					}
+					if onMutex(in, "Unlock") && instrReaches(in, s.Instr) {
+						early = true
+					}
+				})
+				c.Check(locked && !early, "caller-holds-lock/"+fnName(f), s.Pos(), "b.mutex.Lock() precedes doWrite and is released only by the deferred Unlock", "doWrite is called without b.mutex held")
+			}
+		}
+		c.Expect(2, n, "doWrite call sites")
+	})
+}
+
+func prevCodeLoaded(c *Ctx, rule string) {
+	c.Rule(rule)
+	cst := "core/state"
+	n := 0
+	for _, f := range c.AllFuncs(cst) {
+		for _, s := range c.Calls(f, "(*"+cst+".journal).setCode") {
+			call := s.Instr.(*ssa.Call)
+			args := callArgs(&call.Call)
+			if len(args) < 2 {
+				continue
+			}
+			n++
+			c.Funcs[f] = true
+			v := stripConv(args[1])
+			// through slices.Clone / common.CopyBytes
+			for i := 0; i < 3; i++ {
+				if cl, ok := v.(*ssa.Call); ok && len(cl.Call.Args) == 1 {
+					if cal := cl.Call.StaticCallee(); cal != nil && (cal.Name() == "CopyBytes" || strings.HasPrefix(cal.Name(), "Clone")) {
+						v = stripConv(cl.Call.Args[0])
+					}
+				}
+			}
+			loaded := false
+			if cl, ok := v.(*ssa.Call); ok {
+				if cal := cl.Call.StaticCallee(); cal != nil && cal.Name() == "Code" {
+					loaded = true
+				}
+			}
+			raw := fieldOfLoad(v) == cst+".stateObject.code"
+			c.Check(loaded && !raw, "previous-code-loaded/"+fnName(f), s.Pos(), "the journalled previous code comes from the loading accessor Code()", "the journalled previous code is the cached field s.code, which is empty until the code was read in this StateDB: reverting a SetCode on a contract whose code was never loaded restores `no code`")
+		}
+	}
+	c.Expect(1, n, "journal.setCode call sites")
+}
+
+func init() {
+	dec := "The code a SetCode journals as the previous value is the account's real code: the argument of journal.setCode comes from the loading accessor stateObject.Code(), not from the cache field that is empty until first read."
+	extendProp("C13", dec, nil, func(c *Ctx) { prevCodeLoaded(c, "SRC/C13.prevcode") })
+	extendProp("C29", dec, []string{"core/state"}, func(c *Ctx) { prevCodeLoaded(c, "SRC/C29.prevcode") })
+}
+
+// reachesCall: f (or a function it statically calls, up to depth) calls the named function.
+func reachesCall(f *ssa.Function, target string, depth int, seen map[*ssa.Function]bool) bool {
+	if f == nil || seen[f] || depth < 0 {
+		return false
+	}
+	seen[f] = true
+	found := false
+	eachInstr(f, func(in ssa.Instruction) {
+		ci, ok := in.(ssa.CallInstruction)
+		if !ok || found {
+			return
+		}
+		if calleeName(ci.Common()) == target {
+			found = true
+			return
+		}
+		if cal := ci.Common().StaticCallee(); cal != nil && cal.Pkg == f.Pkg {
+			if reachesCall(cal, target, depth-1, seen) {
+				found = true
+			}
+		}
+	})
+	return found
+}
+
+func journalDropped(c *Ctx, rule string) {
+	c.Rule(rule)
+	f := c.Fn(pdb, "(*Database).Recover")
+	if f == nil {
+		return
+	}
+	var drops []Site
+	eachInstr(f, func(in ssa.Instruction) {
+		call, ok := in.(*ssa.Call)
+		if !ok {
+			return
+		}
+		if calleeName(&call.Call) == "core/rawdb.DeleteTrieJournal" {
+			drops = append(drops, Site{f, in})
+			return
+		}
+		if cal := call.Call.StaticCallee(); cal != nil && cal.Pkg == f.Pkg && reachesCall(cal, "core/rawdb.DeleteTrieJournal", 2, map[*ssa.Function]bool{}) {
+			drops = append(drops, Site{f, in})
+		}
+	})
+	rev := c.Calls(f, "(*"+pdb+".diskLayer).revert")
+	c.Expect(1, len(rev), "revert calls in Recover")
+	c.Dom("journal-dropped", f, rev, "dl.revert(h)", GSites("the shutdown journal is deleted", drops))
+}
+
+func init() {
+	dec := "A rollback invalidates the journal of the last shutdown: in Database.Recover every diskLayer.revert lies behind a call that deletes the stored layer journal, so a journal describing layers above the rolled-back state cannot be adopted by the next start."
+	extendProp("C20", dec, nil, func(c *Ctx) { journalDropped(c, "EFFECT/C20.journaldropped") })
+	extendProp("C17", dec, nil, func(c *Ctx) { journalDropped(c, "EFFECT/C17.journaldropped") })
+}
